@@ -129,6 +129,16 @@ def is_static_expr(v):
     return False
 
 
+def is_tag_test(a, c):
+    """a is (a cast of) a value read from the stream, c an integer constant"""
+    x = a
+    while isinstance(x, tuple) and x and x[0] in ("cast", "tryok", "unwrapped"):
+        x = x[1]
+    if not (isinstance(x, tuple) and x and x[0] == "atom"):
+        return False
+    return is_c(c) or (isinstance(c, tuple) and c and c[0] == "namedc")
+
+
 def strip_not(v, pol):
     while isinstance(v, tuple) and v and v[0] == "un" and v[1] == "Not":
         v = v[2]
@@ -202,6 +212,7 @@ class Wire:
         wp = WPath()
         wp.raw = path
         # conditions
+        neg_eqs = {}
         for c in path.conds:
             k = c[0]
             if k == "tyeq":
@@ -218,12 +229,22 @@ class Wire:
                 v, pol = canon_static(c[1], k == "true")
                 if is_static_expr(v):
                     wp.statics[v] = pol
+                elif isinstance(v, tuple) and v[0] == "bin" and v[1] == "Eq" and (is_tag_test(v[2], v[3]) or is_tag_test(v[3], v[2])):
+                    # `if tag == k` spelling of a tag match
+                    a, cst = (v[2], v[3]) if is_tag_test(v[2], v[3]) else (v[3], v[2])
+                    if pol:
+                        wp.selectors.append(("eq", a, cst if is_c(cst) else C(cst[2]), cst[1] if cst[0] == "namedc" else None))
+                    else:
+                        neg_eqs.setdefault(a, []).append(("eq", a, cst if is_c(cst) else C(cst[2]), cst[1] if cst[0] == "namedc" else None))
                 else:
                     wp.dyn.append((v, pol, c[2] if len(c) > 2 else None))
             elif k in ("variant", "eq", "else"):
                 wp.selectors.append(c)
             else:
                 wp.dyn.append((c, True, None))
+        for a, negs in neg_eqs.items():
+            if not any(s_[0] == "eq" and s_[1] == a for s_ in wp.selectors):
+                wp.selectors.append(("else", a, tuple(negs)))
         # outcome
         v = path.value
         if path.kind == "panic":
